@@ -245,7 +245,13 @@ pub fn run(ctx: &Ctx, reg: &Registry) -> i32 {
             Ok(o) => {
                 let stdout = String::from_utf8_lossy(&o.stdout).to_string();
                 let last = std::fs::read_to_string(&progress).unwrap_or_default();
-                if !o.status.success() {
+                if o.status.code() == Some(4) {
+                    acc.violation(
+                        format!("C12/did-not-return-deep/{}", last.split('|').next().unwrap_or("?")),
+                        "deserialize did not return on a depth-128 payload",
+                        json!({"stack_mib": mib, "last_case(subject|payload|script)": last, "child_output": stdout.lines().filter(|l| l.starts_with("CHILD-STUCK")).collect::<Vec<_>>()}),
+                    );
+                } else if !o.status.success() {
                     use std::os::unix::process::ExitStatusExt;
                     let sig = o.status.signal();
                     acc.violation(
